@@ -4,6 +4,7 @@ import (
 	"fmt"
 	"os"
 	"strings"
+	"sync"
 	"time"
 
 	"github.com/spali/go-rscp/rscp"
@@ -144,6 +145,44 @@ func init() {
 			cfgCase(cw, rscp.ClientConfig{Address: v, Username: "u", Password: "p", Key: "k"}, "unusual-address")
 			cfgCase(cw, rscp.ClientConfig{Address: "h", Username: "u", Password: "p", Key: v}, "unusual-key")
 			cfgCase(cw, rscp.ClientConfig{Address: v, Username: v, Password: v, Key: v}, "unusual-all")
+		}
+		// clients created at the same time on several goroutines, each with its own key
+		{
+			about("cfg (NewClient on 8 goroutines at once, 300 distinct keys each)")
+			var wg sync.WaitGroup
+			errs := make([]string, 8)
+			for w := 0; w < 8; w++ {
+				wg.Add(1)
+				go func(w int) {
+					defer wg.Done()
+					defer func() {
+						if r := recover(); r != nil {
+							errs[w] = fmt.Sprint("panic: ", r)
+						}
+					}()
+					for k := 0; k < 300; k++ {
+						if cl, err := rscp.NewClient(rscp.ClientConfig{Address: "h", Username: "u", Password: "p", Key: fmt.Sprintf("key-%d-%d", w, k)}); err != nil || cl == nil {
+							errs[w] = fmt.Sprint("NewClient fails: ", err)
+						}
+					}
+				}(w)
+			}
+			wg.Wait()
+			prop := "pass"
+			for _, e := range errs {
+				if e != "" {
+					prop = "FAIL C16 creating clients concurrently: " + trunc(e, 120)
+				}
+			}
+			cw.add("skip", "skip", "N cfg newclient-together", prop)
+		}
+		// keys with multi-byte characters, in particular straddling the 32nd byte
+		for pre := 26; pre <= 33; pre++ {
+			for _, ch := range []string{"é", "€", "😀", "\xff", "ä\u0301"} {
+				for _, tail := range []string{"", "x", "tail-of-the-key"} {
+					cfgCase(cw, rscp.ClientConfig{Address: "h", Username: "u", Password: "p", Key: strings.Repeat("k", pre) + ch + tail}, fmt.Sprintf("key-multibyte prefix=%d", pre))
+				}
+			}
 		}
 		// key lengths one by one (and long strings in the other fields)
 		for l := 1; l <= 70; l++ {
